@@ -31,6 +31,11 @@ def edge_label(test, atom, resolve=None):
             return 'true'       # all operands hold on the true edge
         if isinstance(test.op, ast.Or) and 'false' in labs:
             return 'false'      # all operands fail on the false edge
+        # every alternative implies the condition: `if has_a(m) or has_b(m):` -> holds on the true edge
+        if isinstance(test.op, ast.Or) and labs and all(l == 'true' for l in labs):
+            return 'true'
+        if isinstance(test.op, ast.And) and labs and all(l == 'false' for l in labs):
+            return 'false'
     if isinstance(test, ast.NamedExpr):
         return edge_label(test.value, atom)
     return None
